@@ -221,9 +221,15 @@ def playback_test_code(h, target, log_path):
     return tests
 
 
+def replay_dir():
+    """native replay scratch + target dir of THIS check process (removed by its own cleanup; concurrent checks never share it)"""
+    return os.path.join(WORK, f'replay_{os.getpid()}')
+
+
 def native_replay(h, test_code, log_path, release=False):
     """Run the playback test natively against the real code (no stubs). Returns 'violates' | 'passes' | 'error'."""
-    scratch = os.path.join(WORK, 'replay', f'{h.name}_{os.getpid()}')
+    rdir = replay_dir()
+    scratch = os.path.join(rdir, f'{h.name}_{os.getpid()}')
     if os.path.isdir(scratch): shutil.rmtree(scratch)
     shutil.copytree(KDIR, scratch, ignore=shutil.ignore_patterns('target'))
     modfile = os.path.join(scratch, 'src', h.module + '.rs')
@@ -232,10 +238,10 @@ def native_replay(h, test_code, log_path, release=False):
     with open(modfile, 'a') as f:
         f.write('\n' + test_code + '\n')
     cmd = ['cargo', 'kani', 'playback', '-Z', 'concrete-playback', '--lib'] + repo_override() + ['--', tname]
-    env = kani_env(); env['CARGO_TARGET_DIR'] = os.path.join(WORK, 'replay', 'target')
+    env = kani_env(); env['CARGO_TARGET_DIR'] = os.path.join(rdir, 'target')
     import fcntl
-    os.makedirs(os.path.join(WORK, 'replay'), exist_ok=True)
-    lock = open(os.path.join(WORK, 'replay', '.lock'), 'w')
+    os.makedirs(rdir, exist_ok=True)
+    lock = open(os.path.join(rdir, '.lock'), 'w')
     fcntl.flock(lock, fcntl.LOCK_EX)        # the native replay target dir is shared: concurrent checks must not build in it at the same time
     try:
         p = subprocess.run(cmd, cwd=scratch, env=env, capture_output=True, text=True, timeout=1800)
